@@ -253,12 +253,20 @@ def crash_site(err_bytes, exe):
     frames = re.findall(r'#(\d+) 0x[0-9a-f]+ +\((\S+?)\+0x([0-9a-f]+)\)', err)   # symbolize=0: '#0 0x... (module+0xoff) (BuildId: ...)'
     if frames:
         mine = [(int(i), int(off, 16)) for i, mod, off in frames if os.path.basename(mod) == os.path.basename(exe)]
-        names = symbolize(exe, [o for i, o in mine[:24]])
+        # unbounded recursion: all frames the sanitizer printed (up to 250) are looked at, so that the set of functions of the
+        # recursion cycle does not depend on the phase in which the stack ran out; otherwise the innermost 24 frames suffice
+        names = symbolize(exe, [o for i, o in (mine[:250] if 'stack-overflow' in err else mine[:24])])
         if 'stack-overflow' in err:
             # unbounded recursion: which function of the cycle touches the guard page first depends on where the stack
             # started (environment size, ASLR), so the site is the alphabetically first function of the cycle instead
-            cyc = sorted(set(site_name(fn, where) for (fn, where) in names
-                             if ('/src/abg-' in where or '/include/abg-' in where or '/tools/' in where) and not fn.startswith('__')))
+            # the cycle = the functions that occur several times among the frames (the few innermost frames, in which the
+            # stack happened to run out, occur once and depend on the phase)
+            cnt = {}
+            for (fn, where) in names:
+                if ('/src/abg-' in where or '/include/abg-' in where or '/tools/' in where) and not fn.startswith('__') and fn not in ('', '??'):
+                    n = site_name(fn, where)
+                    cnt[n] = cnt.get(n, 0) + 1
+            cyc = sorted(n for n, c in cnt.items() if c >= 3 and not n.endswith(':')) or sorted(cnt)
             if cyc:
                 return cyc[0], what or 'stack'
         for (i, o), (fn, where) in zip(mine, names):
